@@ -51,15 +51,16 @@ struct KindDef { const char *name, *ver, *conn; bool closing; };
 static const KindDef kKindDef[NKIND] = {
   {"keep", "HTTP/1.1", nullptr, false}, {"close", "HTTP/1.1", "close", true}, {"http10", "HTTP/1.0", nullptr, true},
   {"keep11h", "HTTP/1.1", "keep-alive", false}, {"keep10h", "HTTP/1.0", "keep-alive", false}, {"keep10te", "HTTP/1.0", "keep-alive, TE", false}, {"close11te", "HTTP/1.1", "TE, close", true}};
-enum { ALONE, GLUED, CUT, CUTM };             // own segment | same segment as the next request | cut into two segments in the middle (a pass in between) | cut inside the method token
+enum { ALONE, GLUED, CUT, CUTM, CUTBL, CUTLAST, BYTES, NSEG };   // ... | cut right after the blank line (head | body) | cut before the LAST body byte | byte by byte (a pass after every byte)
+//             // own segment | same segment as the next request | cut into two segments in the middle (a pass in between) | cut inside the method token
 enum { BAD_CONTENT_LENGTH, BAD_METHOD };
 // conn = client slot (0|1); nd = passes by which the first callback defers next() (two-callback lane); big = the handler's response does not fit the socket buffer
 // rel = on entry the handler first completes every outstanding context (of any connection), then answers; cclose = the client closes right after writing the request (no pass
 // in between: request and end-of-stream arrive together) and connects again; rv = response variant (0: 200 + body | 1: + Content-Type and X-Tag headers | 2: X-Tag, empty body |
 // 3: the handler leaves the response untouched = 404, no body)
-struct Op { int k, kind, delay, seg, conn, nd, big, rel, cclose, rv; };
+struct Op { int k, kind, delay, seg, conn, nd, big, rel, cclose, rv, bl; };      // bl = 1 + length of the request body (0 = the default 5-6 byte body)
 static Op mkreq(int kind, int d, int seg, int conn = 0, int nd = 0, int big = 0, int rel = 0, int cclose = 0, int rv = 0) { return Op{REQ, kind, d, seg, conn, nd, big, rel, cclose, rv}; }
-static const char *kSeg[] = {"alone", "glued", "cut", "cutm"}, *kRaw[] = {"bad-content-length", "bad-method"};
+static const char *kSeg[] = {"alone", "glued", "cut", "cutm", "cutbl", "cutlast", "bytes"}, *kRaw[] = {"bad-content-length", "bad-method"};
 static const char *kRawText[] = {"POST /x HTTP/1.1\r\nContent-Length: abc\r\n\r\n", "BREW /x HTTP/1.1\r\nContent-Length: 0\r\n\r\n"};
 
 static jmp_buf g_bail;                    // the watchdog leaves a loop pass that never ends (forked child / replay process: nothing is cleaned up afterwards)
@@ -140,7 +141,8 @@ static std::string hcl_text(int i, int v) {
   return pre + val + "\r\n\r\n" + req_body(i);
 }
 
-static std::string req_body(int i) { return "b" + std::to_string(i) + "xyz"; }
+static std::vector<int> g_blen;      // per request number: chosen body length, -1 = default
+static std::string req_body(int i) { std::string b = "b" + std::to_string(i) + "xyz"; return i < (int)g_blen.size() && g_blen[i] >= 0 ? b.substr(0, (size_t)g_blen[i]) : b; }
 static std::string req_text(int i, int kind) {
   std::string body = req_body(i); const KindDef &kd = kKindDef[kind];
   return "POST /r" + std::to_string(i) + " " + kd.ver + "\r\n" + (kd.conn ? std::string("Connection: ") + kd.conn + "\r\n" : std::string())
@@ -382,7 +384,7 @@ struct World {
     if (o.k == RAW) { cl[ci].out += kRawText[o.kind]; flush_out(ci); cl[ci].malformed_sent = true; pass(); return; }
     int i = (int)kinds.size(); bool hostile = o.k == HCL; hcl.push_back(hostile ? o.kind : -1);
     if (hostile && !hcl_wellformed(o.kind)) cl[ci].malformed_sent = true;      // a value the model reads as the plain decimal 5 makes an ordinary request: fully judged
-    rels.push_back(o.rel); rvs.push_back(o.rv);
+    rels.push_back(o.rel); rvs.push_back(o.rv); g_blen.resize((size_t)i + 1, -1); g_blen[i] = o.bl - 1;
     kinds.push_back(hostile ? KEEP : o.kind); delays.push_back(o.delay); sent.push_back(false); segs.push_back(o.seg); nds.push_back(o.nd); bigs.push_back(o.big); owner.push_back(ci);
     cl[ci].reqs.push_back(i);
     std::string t = hostile ? hcl_text(i, o.kind) : req_text(i, o.kind);
@@ -394,8 +396,13 @@ struct World {
       if (!connect_client(o.conn)) { viol = "harness-reconnect-failed errno=" + std::to_string(errno); return; }
       pass(); return; }
     if (o.seg == ALONE) { cl[ci].out += t; cl[ci].out_reqs.push_back(i); flush_out(ci); pass(); return; }
-    // CUT: everything glued so far + the first half in one segment, a pass, then the second half, a pass
-    size_t half = o.seg == CUTM ? 2 : t.size() / 2;
+    if (o.seg == BYTES) {                      // every byte its own segment (the bytes glued so far go with the first one)
+      for (size_t x = 0; x < t.size(); x++) { cl[ci].out += t[x]; if (x + 1 == t.size()) cl[ci].out_reqs.push_back(i); flush_out(ci); pass(); if (!viol.empty()) return; }
+      return; }
+    // CUT*: everything glued so far + the first part in one segment, a pass, then the rest, a pass
+    size_t blank = t.find("\r\n\r\n") + 4;
+    size_t half = o.seg == CUTM ? 2 : o.seg == CUTBL ? blank : o.seg == CUTLAST ? t.size() - 1 : t.size() / 2;
+    if (half == 0 || half >= t.size()) { cl[ci].out += t; cl[ci].out_reqs.push_back(i); flush_out(ci); pass(); return; }      // nothing to cut off (empty body): one segment
     cl[ci].out += t.substr(0, half); std::string first = cl[ci].out; cl[ci].out.clear(); std::vector<int> rs = cl[ci].out_reqs; cl[ci].out_reqs.clear();
     client_write(ci, first); for (int r : rs) sent[r] = true;
     pass();
@@ -424,7 +431,7 @@ struct World {
     for (int s = 0; s < g_nclients; s++) {
       Client &k = cl[cur[s]];
       c += "|c" + std::to_string(s) + " reqs="; for (int r : k.reqs) c += std::to_string(r) + ",";
-      c += " glued="; for (int r : k.out_reqs) c += std::string(kKindDef[kinds[r]].name) + std::to_string(delays[r]) + (nds[r] ? "n" + std::to_string(nds[r]) : "") + (bigs[r] ? "B" : "") + (rels[r] ? "R" : "") + (rvs[r] ? "v" + std::to_string(rvs[r]) : "") + ",";
+      c += " glued="; for (int r : k.out_reqs) c += std::string(kKindDef[kinds[r]].name) + std::to_string(delays[r]) + (nds[r] ? "n" + std::to_string(nds[r]) : "") + (bigs[r] ? "B" : "") + (rels[r] ? "R" : "") + (g_blen[r] >= 0 ? "b" + std::to_string(g_blen[r]) : "") + (rvs[r] ? "v" + std::to_string(rvs[r]) : "") + ",";
       snprintf(b, sizeof b, " closing=%d got=%zu partial=%d eof=%d wrfail=%d bad=%d", first_closing(k), k.tags.size(), (int)(k.rx.size() > k.parsed_to), (int)k.eof, (int)k.wr_failed, (int)k.malformed_sent); c += b;
     }
     return c;
@@ -484,6 +491,7 @@ static std::string show_op(const Op &o) {
   if (o.rel) n += snprintf(b + n, sizeof b - n, ",rel");
   if (o.cclose) n += snprintf(b + n, sizeof b - n, ",xclose");
   if (o.rv) n += snprintf(b + n, sizeof b - n, ",v%d", o.rv);
+  if (o.bl) n += snprintf(b + n, sizeof b - n, ",b%d", o.bl - 1);
   snprintf(b + n, sizeof b - n, ")"); return b;
 }
 static bool parse_hist(const std::string &s, std::vector<Op> &h) {
@@ -504,9 +512,9 @@ static bool parse_hist(const std::string &s, std::vector<Op> &h) {
     if (f.size() < 3) return false;
     Op o = mkreq(-1, atoi(f[1].c_str() + 1), -1);
     for (int i = 0; i < NKIND; i++) if (f[0] == kKindDef[i].name) o.kind = i;
-    for (int i = 0; i < 4; i++) if (f[2] == kSeg[i]) o.seg = i;
+    for (int i = 0; i < NSEG; i++) if (f[2] == kSeg[i]) o.seg = i;
     if (o.kind < 0 || o.seg < 0) return false;
-    for (size_t i = 3; i < f.size(); i++) { if (f[i] == "big") o.big = 1; else if (f[i] == "rel") o.rel = 1; else if (f[i] == "xclose") o.cclose = 1; else if (f[i][0] == 'v') o.rv = atoi(f[i].c_str() + 1); else if (f[i][0] == 'c') o.conn = atoi(f[i].c_str() + 1); else if (f[i][0] == 'n') o.nd = atoi(f[i].c_str() + 1); else return false; }
+    for (size_t i = 3; i < f.size(); i++) { if (f[i] == "big") o.big = 1; else if (f[i] == "rel") o.rel = 1; else if (f[i][0] == 'b' && isdigit((unsigned char)f[i][1])) o.bl = atoi(f[i].c_str() + 1) + 1; else if (f[i] == "xclose") o.cclose = 1; else if (f[i][0] == 'v') o.rv = atoi(f[i].c_str() + 1); else if (f[i][0] == 'c') o.conn = atoi(f[i].c_str() + 1); else if (f[i][0] == 'n') o.nd = atoi(f[i].c_str() + 1); else return false; }
     h.push_back(o);
   }
   return true;
@@ -561,6 +569,7 @@ int main(int argc, char **argv) {
   //        hdr      = Connection header variants (keep-alive on 1.1 and 1.0, multi-token values) next to the closing kinds
   //        big      = responses that need several partial socket writes (server-side SO_SNDBUF minimal), mixed with small ones
   //        multi    = two connections at once + the client closing a connection (work outstanding or not) and reconnecting
+  //        bodycut  = body lengths 0/1/2/5 x cut after the blank line | before the last body byte | byte by byte, last on the connection or before another request
   //        hcl      = a request with a hostile Content-Length value (after 0-2 valid requests, followed by a valid one): loop pass ends, handler not entered twice
   //        resp     = response variants (headers, empty body, untouched 404 without a tag): the whole response is compared
   //        life     = stop()/start(), cleanup()/initialize()/use()/start() and a final cleanup() with connections open and handlers outstanding
@@ -597,6 +606,13 @@ int main(int argc, char **argv) {
                               if (nrec < 1 && nreq > 0 && !glued_open) m.push_back(Op{RECONN, 0, 0, 0, 0, 0, 0}); }      // the client goes away while the send buffer still holds (part of) a response
     else if (lane == "mw") { if (more) { for (int kind : {KEEP, CLOSE}) for (int nd : {0, 1, 2}) for (int d : {0, 1}) m.push_back(mkreq(kind, d, ALONE, 0, nd));
                                          for (int kind : {KEEP, CLOSE}) for (int nd : {0, 2}) m.push_back(mkreq(kind, 0, GLUED, 0, nd)); } }
+    else if (lane == "bodycut") {
+      // body lengths 0/1/2/5; the cut right after the blank line, before the last body byte, or every byte alone; as the last thing on the connection (then passes) or before another request
+      if (more) for (int bl : {1, 0, 2, 5}) for (int seg : {CUTLAST, CUTBL, BYTES, ALONE}) {
+        if ((bl == 0 && (seg == CUTLAST || seg == CUTBL)) || (bl > 0 && seg == ALONE) || (bl == 1 && seg == CUTBL)) continue;      // the same segmentation as another entry
+        for (int d : {0, 1}) { Op o = mkreq(KEEP, d, seg); o.bl = bl + 1; m.push_back(o); }
+        Op o = mkreq(CLOSE, 0, seg); o.bl = bl + 1; m.push_back(o); }
+    }
     else if (lane == "hcl") {
       bool hostile_sent = false; for (auto &o : h) if (o.k == HCL) hostile_sent = true;
       if (!hostile_sent && nreq < maxreq) { for (int d : {0, 1}) m.push_back(mkreq(KEEP, d, ALONE)); for (int seg : {ALONE, CUT}) for (int v = 0; v < kNHcl; v++) m.push_back(Op{HCL, v, 0, seg, 0, 0, 0}); }
